@@ -67,6 +67,20 @@ def gen_case(seed, tier="quick"):
             ops.append({"fix": fix, "rest": rest, "recheck": rq.random() < 0.4})
         return {"format": 1, "property": ID, "seed": seed, "rng": H(seed, "rng"), "fault": None, "engine": "volumesim",
                 "kind": "pe", "dom": dom, "ops": ops, "full": {"t": GG.q(rq.uniform(0, 1)), "s": GG.q(rq.uniform(0, 1))}}
+    if c < 0.16:
+        # vertex orientation that flips BETWEEN the parameter rows of one batch (one positive volume per row)
+        rf = rnd(seed, "flip")
+        dom = GG.gen_flip(rf, "x", "t", tri=rf.random() < 0.6)
+        if rf.random() < 0.3:
+            dom = {"k": "bnd", "d": dom}
+        rows = [[GG.q(rf.choice((rf.uniform(0, 0.3), rf.uniform(0.7, 1.0))))] for _ in range(rf.choice((2, 3, 4, 5)))]
+        if rf.random() < 0.8:
+            rows[0], rows[-1] = [GG.q(rf.uniform(0, 0.3))], [GG.q(rf.uniform(0.7, 1.0))]
+            if rf.random() < 0.5:
+                rows.reverse()
+        entry = {"kind": "domain", "method": "random", "n": rf.choice((1, 3, 10))}
+        return {"format": 1, "property": ID, "engine": "geosim", "seed": seed, "rng": H(seed, "rng"), "dom": dom,
+                "pspace": [["t", 1]], "prows": rows, "entry": entry, "fault": None}
     if c < 0.80:
         return geo_cases.gen_case(ID, seed)
     rng = np.random.default_rng(H(seed, "ref") % (2 ** 32))
